@@ -2,7 +2,7 @@
 import random
 
 from .common import run_histories, signature, detail, case_of, account_build
-from ..env import Scratch
+from ..env import Scratch, FileBuilder
 from ..world import World
 from ..gen import GenCfg
 from .. import sched, env
@@ -21,7 +21,7 @@ CONFIG = {
              'pre-emptions, pairs, PCT, random): exactly one invocation, the loser gets RuntimeError, output, return '
              'value and record are the winner\'s; evaluations = builds/schedules judged; distinct_nontrivial = distinct '
              '(template, variant) + distinct switch sequences with a pre-emption inside the library'),
-    'gates': ['template_runs', 'dup_rejected', 'peeks_compared', 'thread_dup_schedules', 'thread_dup_single',
+    'gates': ['asym_schedules', 'template_runs', 'dup_rejected', 'peeks_compared', 'thread_dup_schedules', 'thread_dup_single',
               'builds_committed', 'later_builds'],
 }
 
@@ -278,8 +278,116 @@ def run_thread_scenario(sh, name, program, next_ok, rng):
                 w.discard(tok)
 
 
+def run_asym_scenarios(sh, rng):
+    """races whose two sequential orders have DIFFERENT outcomes (one thread reuses a cached subtree that
+    contains a record for the path/key the other thread calls directly; the nested record succeeded or
+    failed): no model order is imposed; judged by what every order shares - no deadlock, at most one
+    execution per key in the build, every call either returned or raised RuntimeError, and after the build
+    a clean leaves exactly the files that were there before any build (so every output that exists is in
+    the committed record) - plus an unchanged sequential rebuild that must not fail."""
+    import os
+    sched.install()
+    G = {'kind': 'bf', 'idx': 5, 'body': [['q', 'read_text', 'in0', 'M'], ['write', 'g']]}
+    Fbad = {'kind': 'bf', 'idx': 6, 'body': [['write', 'bad'], ['raise', 'Fbad']]}
+    Sk = {'kind': 'sb', 'idx': 7, 'body': [['q', 'read_text', 'in0', 'M']]}
+    Sbad = {'kind': 'sb', 'idx': 8, 'body': [['q', 'read_text', 'in0', 'M'], ['raise', 'Sbad']]}
+    scen = []
+    for nested_ok in (True, False):
+        Pbf = {'kind': 'sb', 'idx': 1, 'body': [['bf', 'd/o', 'G' if nested_ok else 'Fbad', {'catch': True}],
+                                                ['q', 'exists', 'in0', 'M']]}
+        scen.append(('asym-bf-%s' % ('ok' if nested_ok else 'failed'),
+                     {'funcs': {'P': Pbf, 'G': G, 'Fbad': Fbad},
+                      'roots': [[['sb', 'P', {'catch': True}]],
+                                [['par', [[['sb', 'P', {'catch': True}]], [['bf', 'd/o', 'G', {'catch': True}]]]],
+                                 ['q', 'exists', 'in0', 'M']]]}))
+        Psb = {'kind': 'sb', 'idx': 1, 'body': [['sb', 'Sk' if nested_ok else 'Sbad', {'catch': True, 'args': [1]}],
+                                                ['q', 'exists', 'in0', 'M']]}
+        scen.append(('asym-sb-%s' % ('ok' if nested_ok else 'failed'),
+                     {'funcs': {'P': Psb, 'Sk': Sk, 'Sbad': Sbad},
+                      'roots': [[['sb', 'P', {'catch': True}]],
+                                [['par', [[['sb', 'P', {'catch': True}]],
+                                          [['sb', 'Sk' if nested_ok else 'Sbad', {'catch': True, 'args': [1.0]}]]]],
+                                 ['q', 'exists', 'in0', 'M']]]}))
+    name, program = scen[(sh.idx // 2) % len(scen)]
+    with Scratch('a') as sc:
+        w = World(sc)
+        w.ext_write('in0', b'input zero')
+        w.ext_write('keep/foreign', b'foreign')
+        before = {p: v[:2] for p, v in env.snapshot(w.sb).items()}
+        sr0 = w.build(program, program['roots'][0], {}, label=0, threads=False)
+        if sr0.divs:
+            return
+        tok = w.save()
+        try:
+            def run(strategy):
+                w.restore(tok, keep=True)
+                s = sched.Scheduler(strategy)
+                sr = w.build(program, program['roots'][1], {}, label=1, compare=False, run_model=False,
+                             hooks={'spawn': s.spawn, 'fs_yield': s.fs_yield})
+                sh.evaluations += 1
+                sh.count('asym_schedules')
+                case = case_of(w, program)
+                if s.timed_out:
+                    sh.inconclusive.append('scheduler watchdog fired in ' + name)
+                    return s
+                if s.deadlock:
+                    sh.violation('deadlock|' + name, {'info': s.deadlock_info}, case)
+                    return s
+                if getattr(s, 'double_lock', None):
+                    sh.violation('lock_created_twice_for_one_object|%s' % s.double_lock['class'], dict(s.double_lock), case)
+                    return s
+                if s.inside_lib_preemptions:
+                    sh.nt((name, s.signature()))
+                keys = [k for (_t, k, _f) in sr.rctx.log]
+                if len(keys) != len(set(keys)):
+                    sh.violation('invoked_twice|' + name, {'keys': [str(k)[:60] for k in keys]}, case)
+                    return s
+                odd = [e for lst in sr.rctx.outcomes.values() for e in lst
+                       if e is not None and not isinstance(e, RuntimeError) and type(e).__name__ not in ('UserBoom',)]
+                if sr.rres[0] != 'ok' or odd:
+                    sh.violation('asym_race_spurious_exception|' + name,
+                                 {'result': sr.rres[:2], 'odd': [type(e).__name__ for e in odd][:3]}, case)
+                    return s
+                # an unchanged sequential rebuild must work, and clean must leave the initial tree
+                try:
+                    FileBuilder.build_versioned(w.cache, w.build_name, {},
+                                                lambda b: None)
+                except Exception as e:  # noqa
+                    sh.violation('build_after_asym_race_fails|%s|%s' % (name, type(e).__name__), {}, case)
+                    return s
+                w.restore(tok, keep=True)
+                sr = w.build(program, program['roots'][1], {}, label=1, compare=False, run_model=False,
+                             hooks={'spawn': sched.Scheduler(strategy).spawn})
+                FileBuilder.clean(w.cache, w.build_name)
+                after = {p: v[:2] for p, v in env.snapshot(w.sb).items()}
+                if after != before:
+                    extra = sorted(env.rel(w.sb, p) for p in after if p not in before)
+                    missing = sorted(env.rel(w.sb, p) for p in before if p not in after)
+                    sh.violation('clean_after_asym_race_leaves_or_loses|' + name,
+                                 {'left_behind': extra[:4], 'lost': missing[:4]}, case)
+                return s
+            s0 = run({'kind': 'none', 'grain': 'lines'})
+            n = s0.step
+            ks = list(range(1, n + 1))
+            if sh.tier == 'quick' and len(ks) > 120:
+                ks = sorted(rng.sample(ks, 120))
+            for k in ks:
+                if sh.time_left() <= 0:
+                    return
+                run({'kind': 'preempt', 'at': {k: 0}, 'first': rng.randrange(2)})
+            for _ in range(30 if sh.tier == 'quick' else 800):
+                if sh.time_left() <= 0:
+                    return
+                k1, k2 = sorted(rng.sample(range(1, n + 2), 2))
+                run({'kind': 'preempt', 'at': {k1: 0, k2: 0}, 'first': rng.randrange(2)})
+        finally:
+            w.discard(tok)
+
+
 def run_shard(sh):
     rng = random.Random((sh.seed * 1000003 + sh.idx) & 0xffffffff)
+    if sh.idx % 2 == 1:
+        run_asym_scenarios(sh, rng)
     tpls = templates()
     # (a1) templates: every shard runs a slice, several times with different input changes
     for name, program in tpls[sh.idx % 4::4]:
